@@ -3,24 +3,46 @@
 Proof      : coq/Props/C08.v over Model/Commit.v with cas = true and NO hypothesis on the lock
              (lockkind Excl, Lease with arbitrary steal events, or GrantAll): the flip replaces exactly the
              version the committer validated (C08_ack_implies_validated), hence the chain/serializability
-             theorems; a committer whose lease was taken away before the fence gets a conflict, never success.
+             theorems.  Second sentence of the property, over SCHEDULES (Proofs/LostLockProofs.v): a committer whose lease
+             lapses while it is inside commit() before its fence adds nothing to the pointer history for any continuation of
+             the schedule, and the first step that takes it out of the pre-fence states leaves it in PConflict (retryable
+             conflict) or ends the call without a pointer write (C08_lost_lock_before_fence_conflict).  A lapse AFTER the
+             fence can still be acknowledged -- harmless on CAS storage, and said so (C08_lapse_after_fence_example).
              Model/FlipFault.v adds the FAILING pointer write: the conditional PUT raises an error that is not the
              store's refusal, applied by the store or not, anywhere in any interleaving (a request landing after its
-             client gave up = the same event later in the schedule); the committer's reaction is computed from the
-             regenerated tables gen_flip_exn / gen_tx_on (C08_failed_flip_reaction_regenerated); the chain theorems
-             hold for every such schedule (C08_faulted_no_lost_update) and a committer whose pointer write raised is
-             never acknowledged, whatever the pointer says afterwards (C08_failed_write_never_acknowledged).
+             client gave up = the same event later in the schedule: C08_delayed_landing_nonvacuous); the committer's
+             reaction is computed from the regenerated tables gen_flip_exn / gen_tx_on
+             (C08_failed_flip_reaction_regenerated); the chain theorems hold for every such schedule
+             (C08_faulted_no_lost_update) and a committer whose pointer write raised is never acknowledged, whatever the
+             pointer says afterwards (C08_failed_write_never_acknowledged).
+             Model/PtrFallback.v is commit()'s FALLBACK: the pointer object read with the ETag is unusable (absent / garbage /
+             dangling), `current = self.refresh()` re-reads it and recovers by scanning; damage events anywhere.
+             UNCONDITIONALLY every applied pointer write replaced exactly the object whose ETag its committer had read, and the
+             version validated is the one named by those bytes or -- unusable object -- the one recovered by the scan, never
+             that of a pointer repaired in between (C08_fallback_replaced_what_it_read).  "No acknowledged commit is
+             overwritten" on that path is FALSE for arbitrary scan results (C08_fallback_no_lost_update_refuted: witness by
+             computation) and proved under the exact extra hypothesis that every scan returns the version named by the last
+             successful pointer write (C08_fallback_no_lost_update_partial; that hypothesis is C10's subject).
 Tie        : trace validation of the real S3StorageBackend + MetadataManager.commit over an in-memory S3
              with conditional writes (harness/lib/mems3.py), under the scheduler, with a lock that grants
              everyone and with the real lease lock; the projection demands that the validation read IS the read
              that yields the ETag.  Faulted runs (one request-level failure of a committer's pointer PUT: not applied /
              applied, response lost / in flight and landing at a scheduling point of its own; timeouts, connection
              errors, 5xx) are projected onto Model/FlipFault.v and must be accepted by xrun_strict, agreeing on final
-             pointer, the store's order of applied writes, outcomes and who failed.
+             pointer, the store's order of applied writes, outcomes and who failed.  Runs that START on an unusable pointer
+             (missing / garbage / dangling / empty) are projected onto Model/PtrFallback.v (base reads by scanning, the
+             unusable ETag read, the fallback refresh -- still unusable or repaired meanwhile --, the conditional write keyed to
+             the unusable object) and must be accepted by rrun_strict, agreeing on final pointer, applied writes, outcomes,
+             per write (object replaced, version validated, where it came from) and the number of inexact scans.
 Oracle     : the serializability oracle of C01 on every explored schedule; on faulted schedules the acknowledged-commits
              oracle, judged from the STORE's own history of the pointer: acknowledged => the store applied that
              committer's write, once, and it replaced the very content the committer validated; retryable conflict =>
-             not applied; final table = serial replay of the applied writes in the store's order.
+             not applied; final table = serial replay of the applied writes in the store's order.  On unusable-pointer
+             schedules: every applied write replaced exactly the object its committer's ETag read returned, validated the
+             version that object named (or, unusable, the scanned one); acknowledged <=> applied once; no acknowledged
+             append's rows are missing; full serial replay whenever every scan returned the last written version (a scan
+             that returns another committer's UNPUBLISHED file -- possible only without lock exclusion on an unusable
+             pointer -- is counted in the stats and left to C10).
 """
 from __future__ import annotations
 
@@ -38,22 +60,35 @@ THEOREMS = ["C08_ack_implies_validated", "C08_no_lost_update", "C08_lost_lock_be
 MANIFEST_ENTRY = {
     "level_text": "For CAS storage and ANY lock behaviour (exclusive, lease with arbitrary takeovers, or no exclusion at all) Coq "
                   "proves that every acknowledged flip replaced exactly the version its committer validated, so the committed "
-                  "versions form one chain (no lost update), and that a committer whose lease was taken before the fence ends in "
-                  "a retryable conflict; the same chain theorems are proved for every schedule that also contains FAILING pointer writes "
-                  "(error other than the store's refusal, applied or not, landing anywhere), with the committer's reaction computed "
+                  "versions form one chain (no lost update); over schedules, that a committer whose lease lapses before its fence adds "
+                  "nothing to the pointer history and leaves its attempt in a retryable conflict (or dies) for every continuation; the "
+                  "same chain theorems for every schedule that also contains FAILING pointer writes (error other than the store's "
+                  "refusal, applied or not, landing anywhere, incl. after the client gave up), with the committer's reaction computed "
                   "from the regenerated failure-class / handler tables, and a committer whose pointer write raised is proved never "
-                  "acknowledged; real S3StorageBackend / MetadataManager code is trace-validated against the model over an "
-                  "in-memory conditional-write S3 under a deterministic scheduler with a grant-everyone lock and the real lease lock, "
-                  "including a request-level failure of either committer's pointer PUT (not applied / response lost / in flight and "
-                  "landing later; timeouts, connection errors, 5xx) at every interleaving position with the other committer, judged "
-                  "by an acknowledged-commits oracle over the store's own pointer history",
-    "level_note": "trusted: Coq kernel; translator/gen_commit.py (single ETag-bearing pointer read before validation, failure classes of the conditional write: C08_cas_path_regenerated); harness projection (validation read must be the ETag read); in-memory S3 is strongly "
-                  "consistent with atomic conditional PUT (the property's premise); in-flight PUT delay = interleaving before the "
-                  "atomic landing, and for a client that gave up on the request a landing event of its own (one fault per run); the fault "
-                  "injector at the boto surface (harness/lib/protocol.py s3_fault) and the store's put history (mems3.py); the real S3 "
-                  "lease lock's blocking loop / heartbeat is exercised by C19",
-    "technique": "Coq invariant proof (CAS, arbitrary lock, failing pointer writes) over translator-regenerated kernels + trace validation "
-                 "and request-level fault injection x schedule enumeration over a fake conditional-write S3",
+                  "acknowledged; for commit()'s fallback on an UNUSABLE pointer (absent / garbage / dangling, damage anywhere) that every "
+                  "applied pointer write replaced exactly the object whose ETag was read and validated the version that object named "
+                  "or, unusable, the version recovered by the scan -- unconditionally -- and the chain theorems under the stated "
+                  "hypothesis that every scan returns the last successfully written version (without it they are refuted by a "
+                  "computed witness: C08_fallback_no_lost_update_refuted / _partial); real S3StorageBackend / MetadataManager code is "
+                  "trace-validated against the three models over an in-memory conditional-write S3 under a deterministic scheduler with a "
+                  "grant-everyone lock and the real lease lock, including a request-level failure of either committer's pointer PUT at "
+                  "every interleaving position and committers that start on an unusable pointer, judged by implementation-only oracles "
+                  "over the store's own pointer history",
+    "level_note": "trusted: Coq kernel; translator/gen_commit.py (single ETag-bearing pointer read before validation, the validated version "
+                  "derived from that read's bytes -- C08_ack_implies_validated's `a_etag := a_cur := v` in ONE model step rests on this "
+                  "data-flow check --, the only other assignment of `current` being the fallback refresh(); failure classes of the "
+                  "conditional write: C08_cas_path_regenerated, C08_fallback_path_regenerated); harness projection (validation read must "
+                  "be the ETag read; an ETag read that retried a missing object is placed at its last attempt); in-memory S3 is strongly "
+                  "consistent with atomic conditional PUT and ETags unique per object state (the property's premise; for an ABSENT pointer "
+                  "this excludes deleting it twice within one attempt); in-flight PUT delay = interleaving before the atomic landing, and "
+                  "for a client that gave up on the request a landing event of its own (one fault per run); the fault injector at the boto "
+                  "surface (harness/lib/protocol.py s3_fault) and the store's put history (mems3.py); the lost-lock theorem covers a lapse "
+                  "BEFORE the fence -- a lapse between fence and conditional PUT can be acknowledged (harmless on CAS storage, "
+                  "C08_lapse_after_fence_example); C08_fallback_no_lost_update_partial assumes exact recovery scans (C10); pointer damage in "
+                  "the harness is the initial state only; the real S3 lease lock's blocking loop / heartbeat is exercised by C19",
+    "technique": "Coq invariant proofs (CAS, arbitrary lock, failing pointer writes, unusable pointer + fallback, lost-lock trace lemma) over "
+                 "translator-regenerated kernels + trace validation, request-level fault injection and damaged-pointer initial states x "
+                 "schedule enumeration over a fake conditional-write S3",
     "design_ref": "DESIGN.md section 5 C08",
 }
 
@@ -326,8 +361,9 @@ def fallback_oracle(case: Dict[str, Any], res: P.CaseResult) -> Optional[str]:
             if named is not None and _META_NAME.match(named) and ("tbl/metadata/" + named) in {k for k in res.store.objects}:
                 return f"{a} validated a scanned version although the pointer it read named the existing file {named!r}"
         else:
-            return (f"{a}'s pointer write was applied although its validated version came from {w['how']!r} "
-                    f"(the pointer object it had read: {w['obj']!r})")
+            return (f"{a}'s pointer write was applied although " + ("the log shows no validation read of a metadata file under the lock"
+                    if w["how"] is None else f"its validated version came from a pointer {w['how']} between the ETag read and refresh()")
+                    + f" (the pointer object it had read with the ETag: {w['obj']!r})")
     ops = c01._fix_case(case)["ops"]
     got_rows = sorted(r["x"] for r in res.final["rows"])
     for a, (st, d) in sorted(res.outcomes.items()):
@@ -549,7 +585,9 @@ def run(ctx) -> None:
                 "committer's pointer PUT {not applied, applied with the response lost, in flight and landing later} x {read timeout, "
                 "connection closed / refused / reset, 500, 503, 400 RequestTimeout} x {first, second attempt} x either committer, with "
                 "the other committer's whole commit (and the landing) at every position, under (a) and (b), + enumeration + random "
-                "3-4 committers; distinct = executed schedule per case")
+                "3-4 committers; (d) committers that START on an unusable pointer {missing, garbage, dangling, (thorough) empty}: "
+                "enumeration under (a), lease lapse + takeover at every point under (b), random 3-4 committers; "
+                "distinct = executed schedule per case")
     ctx.trusted_base += ["harness/lib/sched.py, protocol.py, mems3.py (strongly consistent in-memory S3 with If-Match / If-None-Match)"]
     ctx.assumptions += ["conditional PUT is atomic and the store is strongly consistent (property premise)"]
     ctx.proofs(THEOREMS, gen_files=["GenCommit.v"])
